@@ -11,7 +11,8 @@ Definition fline : Type := line (T:=float).
 
 Definition err_eqb (a b : err) : bool :=
   match a, b with
-  | EZeroDiv, EZeroDiv | ELattice, ELattice | EAssert, EAssert | ELoop, ELoop | EStop, EStop => true
+  | EZeroDiv, EZeroDiv | ELattice, ELattice | EAssert, EAssert | ELoop, ELoop | EStop, EStop
+  | EIndex, EIndex => true
   | _, _ => false
   end.
 
@@ -72,3 +73,12 @@ Definition adjb_of (l : list (nat * nat)) (i j : nat) : bool := existsb (key_eqb
 Definition check_walk (c : list (nat * nat) * nat * res (list (nat * nat))) : bool :=
   let '(pairs, first, expected) := c in
   res_eqb (list_eqb key_eqb) (hex_vertices_abs (adjb_of pairs) first) expected.
+
+(* develop_lattice's test of the ranges: accepted / LatticeError *)
+Definition check_domain (c : nat * list (Z * Z) * res unit) : bool :=
+  let '(nvec, bounds, expected) := c in
+  res_eqb (fun _ _ => true) (domain_check nvec bounds) expected.
+
+(* latticeVector *)
+Definition check_latvec (c : list fvec * list Z * fvec) : bool :=
+  let '(base, index, expected) := c in vec_close (latticeVector FS base index) expected.
